@@ -48,13 +48,14 @@ TRUSTED = [
     'sys.settrace line/opcode events as preemption points: CPython switches threads only between bytecodes, so every real interleaving of the traced code is a sequence of these steps (the converse - that each traced step is atomic - holds under the GIL; C-level GIL releases inside one bytecode are not exhibited)',
     'the scheduler-aware lock (harness/lib_sched.SLock) behaves like threading.Lock / RLock (context manager and acquire/release); harness/lib_sched.LockPatch puts one in place of every lock the code under test creates (threading.Lock / RLock called from a file under falcon/, under whatever module-level name) or already holds (module globals, instance and class attributes of the router / app and of the falcon objects they refer to) - no attribute name is assumed; a lock reached only through a closure cell or a C extension stays a real lock (a preempted holder then shows up as a reported deadlock, not as a crash)',
     'the scripted asyncio gate (one task runs between two decisions of the controller) for the ASGI interleavings',
-    'the AST scan of harness/lib_inventory.py as the enumeration of process-wide state: purely syntactic detectors (memo decorators and their aliases, memo applications as call expressions anywhere, partial objects binding containers, module-level containers and instances, mutable default arguments, class attributes, instance attributes of long-lived classes written outside __init__ directly or through a local alias, lazy-initialisation idioms, nonlocal cells, objects handed to local helper closures); state reached only through other aliases, setattr()/__dict__, C extensions or modules outside falcon/ (and falcon/testing, bench, cmd, vendor, cyutil) is not seen',
+    'the AST scan of harness/lib_inventory.py as the enumeration of process-wide state: purely syntactic detectors (memo decorators and their aliases, memo applications as call expressions anywhere, partial objects binding containers, module-level containers and instances, mutable default arguments, class attributes, instance attributes of long-lived classes written outside __init__ directly or through a local alias, lazy-initialisation idioms, nonlocal cells, objects handed to local helper closures, closure cells of factory functions bound by an assignment (a captured PARAMETER is the caller\'s object and is not reported), raises of pre-existing objects); state reached only through other aliases, setattr()/__dict__, C extensions or modules outside falcon/ (and falcon/testing, bench, cmd, vendor, cyutil) is not seen',
     'the hand-written classification of the inventory table (kind + justification per item): the check ties its SHAPE to the source on every run and validates "immutable result" dynamically, but e.g. "written by add_route() only" is a reading of the code',
     'functools.lru_cache (C implementation) executes lookup and store atomically and calls the wrapped function in between; the model tie observes it through cache_info() after every call',
 ]
 ASSUMPTIONS = [
     'routes are not added while requests are in flight (add_route during traffic is outside the property)',
-    'generated resources, middleware and error handlers keep no state outside req/resp/params (the property is about the framework, not about user code)',
+    'generated resources, middleware and error handlers keep no state outside req/resp/params and the objects the framework hands them for the request (the parsed document, the error object given to an error handler); the one deliberate exception is the not thread-safe component of part (b\'\'), which every request enters exactly once through a threadsafe=False wrapper',
+    'the wrapped-component runs depend on real time: a second worker thread (if the framework provides one) must get to run within the 2-4 ms another call blocks inside the component; under extreme load a broken tree may go unnoticed in that part, an intact one cannot fail',
 ]
 RULE = ('(a) router race: routers generated from 3 route sets (fields, int/uuid converters, complex segments) x 2 threads (quick) / 2 and 3 threads (thorough) issuing the first-ever find() for PRNG-chosen paths; '
         'every single-preemption schedule at line granularity (opcode granularity inside find/_compile_and_find), two-preemption schedules with the first preemption at an opcode of find/_compile_and_find or at the first/last lines of _compile and the second one densely after it and strided up to the end, plus PRNG-chosen 2-4 preemption schedules (quick: all single preemptions and a PRNG subset of the rest); '
@@ -68,9 +69,18 @@ RULE = ('(a) router race: routers generated from 3 route sets (fields, int/uuid 
         '(b) 2-3 concurrent ASGI requests over generated apps (routes with fields/converters, LITERAL-ONLY routes, middleware, media, errors, custom error handlers; in half of the apps a resource middleware that MUTATES what the framework hands it between suspension points: '
         'injects responder arguments through params (scalar and a mutable trail), completes the parsed req.get_media() document in place, appends to lists/dicts it keeps in req.context / resp.context; responders take **kwargs and report them late, and complete the parsed document in place before a suspension point), '
         'interleaved at every receive/send and at explicit awaits inside middleware/responders in a PRNG-chosen order, and 2-3 WSGI threads (deterministic scheduler with PRNG preemption points at line events inside falcon/, and free-running threads), each compared with one-at-a-time execution on an identical app of its own '
-        '(the concurrent app is fresh: its requests are its first ever); request groups: 60% independent (every request its own token in path/query/body/headers), 20% all of one kind, 20% TWINS - identical method, path, query string and body BYTES, differing only in the X-Tok header (and headers derived from it); '
+        '(the concurrent app is fresh: its requests are its first ever); request groups: 50% independent (every request its own token in path/query/body/headers), 17% all of one kind, 15% ALL TO THE SAME ROUTE AND ANSWERED BY A FRAMEWORK-DEFAULT RESPONDER '
+        '(the 405 responder made for the route at add_route() with 2-3 different unsupported methods, the default OPTIONS responder, the 404 of an unknown path / a failing converter), 18% TWINS - identical method, path, query string and body BYTES, differing only in the X-Tok header (and headers derived from it); '
+        'in two thirds of the apps an ERROR HANDLER THAT AMENDS THE ERROR OBJECT IT IS HANDED (description, title, code, entries of the headers dict) across two suspension points and raises it again / renders it itself (status, headers, to_dict()), registered for every HTTPError or for HTTPMethodNotAllowed/HTTPNotFound only; '
+        'request kinds include media types spelled so that they are not literal keys of the handler mapping (parameters, letter case, a fresh parameter value per request: the best-match fallback of the resolver, first time for the app) for the response (resp.content_type + resp.media) and the request body; '
+        "(b') WSGI, FIRST-TIME EVENTS x EVERY PREEMPTION POINT: pairs of requests to a fresh app - one mostly an error response / default responder, one mostly a first-time media-type spelling, either order - under every single-preemption schedule (quick: every third point, PRNG offset): request 0 preempted before its p-th line event inside falcon/ "
+        '(all functions; inside the router\'s compile every 40th), request 1 processed completely in that window; '
+        "(b'') ASGI, a NOT thread-safe synchronous component (accounts + journal; every method reads, blocks 2-4 ms releasing the GIL, writes) whose entry points are wrapped with falcon.util.wrap_sync_to_async(..., threadsafe=False) - one wrapper per entry point / wrapped anew per request / one wrapper for all / mixed - and called from responders and from middleware of one app, "
+        'each request making exactly one call: 2-3 requests started together (PRNG start delays below the blocking time) must get the responses of SOME one-at-a-time order (all n! orders are executed on fresh apps); '
         '(c) inventory: every .py under $FALCON_REPO/falcon (without testing/bench/cmd/vendor/cyutil) is parsed with `ast` and every item of process-wide mutable state found by the detectors is compared with the classification table (one case per item and per per-request class; a new item, a changed decorator/shape, a stale row are mismatches naming the item); '
         'detectors: memo decorators and their aliases, EVERY application lru_cache(...)(f) / cache(f) written as a call expression (anywhere in the right-hand side of an assignment to a module, class or instance attribute, in a return, an argument ...), functools.partial binding a mutable container, module-level containers/instances, mutable defaults, class-level mutable attributes, '
+        'CLOSURE CELLS (a local of a factory function bound there to a container / instance / call result / alias and free in an inner function - the responder made per route, the wrapper made per decorated function - with what the inner function does with it: read / call / pass on / RAISE / RETURN / mutate; a fresh instance or container that is raised or returned is one object handed to every request and is admitted by no proved kind), '
+        'raise of a pre-existing object (raise self.X in a long-lived class, raise of a module-level non-class object), '
         'instance attributes of long-lived classes written outside __init__ directly or through a local alias (x = self.X; x[k] = v), and lazy initialisation (if self.X is None / not self.X / not hasattr / try-except AttributeError: self.X = V, also through an alias and chained assignment) with the kind of value created - a lazily created LOCK is a shape no proved kind admits; '
         'every memoised function the scan finds - in the table or not, module-level or created in a method and stored on a default-constructed instance - is called twice with equal PRNG arguments, the first result mutated in place deeply, the next call compared with a fresh uncached computation; for the private mutable-result memos of mediatypes the same at their only caller quality(); '
         '(d) memo model: for each lru_cache-wrapped function of the inventory, PRNG call sequences of 0.5-3 x maxsize calls over maxsize+k keys (hits, misses, evictions, exceptions, cache_clear) on one thread, and 2-3 threads with 1-3 calls each over 1-3 keys under the deterministic scheduler with 1-4 PRNG preemptions inside the Python body (between lookup and store), the cache preloaded to (almost) full in 60% of the races; the ASGI header-name cache with 20-90 names; value/hits/misses/size after every call are replayed through the model; '
@@ -78,15 +88,15 @@ RULE = ('(a) router race: routers generated from 3 route sets (fields, int/uuid 
 PARTIAL = ('proof, partial: proved are the locking protocol of the lazy router compile (given one lock that exists before the first request - which is what an eagerly created lock provides under every schedule, Ll.eager_lock_mutual_exclusion, and what a lock created on first use does not, Ll.lazy_lock_witness), the transparency of a shared bounded memo and of racing lazy initialisation under every schedule, and their composition with per-request programs '
            '(Cp.falcon_shared_noninterference). The hypothesis of that composition - every write after import goes to the request\'s own objects or to an inventoried item of kind memo / lazy / lock-protected - is established by a checked '
            'syntactic inventory (AST detectors + hand classification, tied to the source on every run), not by a semantic analysis of the Python code: aliasing beyond local helper closures, setattr/__dict__ writes and state outside falcon/ are not seen; '
-           'the items of kind configuration rest on the assumption that the app is not reconfigured during traffic, the items of kind OTHER (falcon.util.sync runner/executor) and the purity of the memoised functions are covered only by the '
-           'interleaved-vs-serial runs and the mutable-result oracles; that per-request steps touch only req/resp/params is still validated dynamically. CPython\'s true atomicity (coarser than the traced steps) and '
+           'the items of kind configuration rest on the assumption that the app is not reconfigured during traffic, the items of kind OTHER (falcon.util.sync runner/executor - the mutual exclusion it offers to applications is exercised by the wrapped-component runs, in real time, not proved) and the purity of the memoised functions are covered only by the '
+           'interleaved-vs-serial runs and the mutable-result oracles; that objects handed to user code (error objects, parsed documents, params) are created per request is checked by the closure-cell / shared-raise detectors and by handlers that amend them between suspension points, not proved; that per-request steps touch only req/resp/params is still validated dynamically. CPython\'s true atomicity (coarser than the traced steps) and '
            'C-level GIL releases are not exhibited; the replay of real router schedules maps opcode/line events to the model\'s 12 step kinds (the three table loads of one call count as one step); lru_cache\'s lookup and store are taken as atomic. '
            'The exploration of the lazy-compile window with 3 threads x 3 preemptions is exhaustive only over the reduced set of switch points (window points + state-changing lines) and, in the quick tier, sampled.')
 JOBS = {'quick': 4, 'thorough': 16}
 
 
 def run(ctx):
-    for part in (_inventory, _memo_oracles, _memo_tie, _router_race, _asgi_tasks, _wsgi_threads, _audit_after_traffic):
+    for part in (_inventory, _memo_oracles, _memo_tie, _router_race, _asgi_tasks, _asgi_wrapped_sync, _wsgi_threads, _audit_after_traffic):
         try:
             part(ctx)
         except Exception as e:  # noqa
@@ -851,16 +861,63 @@ class Chunks:
         resp.content_type = 'application/octet-stream'
         _kw(resp, extra)
 
+class Typed:
+    # the media type of the response (GET) / of the request body (POST) is spelled by the client: spellings that are not literal keys of the
+    # handler mapping (parameters, other letter case) go through the best-match fallback of the handlers' resolver - for a fresh app the FIRST time
+    ASYNC def on_get(self, req, resp, n, **extra):
+        AWAIT yp()
+        resp.content_type = req.get_param('ct') or 'application/json'
+        AWAIT yp()
+        resp.media = {'typed': n, 'tok': req.get_header('X-Tok'), 'ct': resp.content_type}
+        _kw(resp, extra)
+    ASYNC def on_post(self, req, resp, n, **extra):
+        AWAIT yp()
+        doc = AWAIT req.get_media()
+        AWAIT yp()
+        resp.content_type = req.get_param('ct') or req.content_type
+        resp.media = {'typed': n, 'doc': doc, 'tok': req.get_header('X-Tok'), 'req_ct': req.content_type}
+        _kw(resp, extra)
+
 ASYNC def sink(req, resp, **kw):
     AWAIT yp()
     resp.media = {'sink': req.path, 'kw': kw, 'tok': req.get_header('X-Tok')}
+
+def _amend(req, ex, params):
+    # what an error handler does with the error object the framework hands it: it writes per-request data into it
+    tok = req.get_header('X-Tok') or '-'
+    ex.description = '%s %s cannot be served for %s (%s)' % (req.method, req.path, tok, json.dumps(params, sort_keys=True, default=str))
+    ex.title = (ex.title or '') + ' / ' + tok
+    if not isinstance(ex.headers, dict):
+        ex.headers = dict(ex.headers or ())
+    ex.headers['X-Err-For'] = tok
+    ex.headers.setdefault('X-Err-First', tok)
+    return tok
+
+ASYNC def amend_and_reraise(req, resp, ex, params):
+    # the documented way of adjusting an error and still letting falcon render it: amend it, do some more work, raise it again
+    tok = _amend(req, ex, params)
+    AWAIT yp()
+    ex.headers['X-Err-Path'] = req.path
+    ex.code = len(req.path) * 1000 + len(tok)
+    AWAIT yp()
+    raise ex
+
+ASYNC def amend_and_render(req, resp, ex, params):
+    _amend(req, ex, params)
+    AWAIT yp()
+    ex.headers['X-Err-Path'] = req.path
+    AWAIT yp()
+    resp.status = ex.status
+    resp.set_headers(ex.headers)
+    AWAIT yp()
+    resp.media = ex.to_dict()
 
 ASYNC def on_boom(req, resp, ex, params):
     AWAIT yp()
     resp.status = falcon.HTTP_503
     resp.media = {'boom': ex.tok, 'path': req.path, 'params': params}
 
-def make_app(App, n_mw, independent, inject=False):
+def make_app(App, n_mw, independent, inject=False, amend=0):
     mw = [Mw(k) for k in range(n_mw)]
     if inject:
         mw.insert(min(1, len(mw)), Inject())
@@ -875,7 +932,17 @@ def make_app(App, n_mw, independent, inject=False):
     app.add_route('/health', Lit())
     app.add_route('/reports/summary', Lit())
     app.add_sink(sink, '/sink/')
+    app.add_route('/typed/{n:int}', Typed())
     app.add_error_handler(Boom, on_boom)
+    # error handlers that AMEND the error object they are handed (description, title, code, the headers dict) between suspension points:
+    # 1 = every HTTPError, raised again; 2 = every HTTPError, rendered by the handler itself; 3 = only the errors of the framework's default
+    # responders (405 of a route, 404 of an unknown path), raised again
+    if amend == 1:
+        app.add_error_handler(falcon.HTTPError, amend_and_reraise)
+    elif amend == 2:
+        app.add_error_handler(falcon.HTTPError, amend_and_render)
+    elif amend == 3:
+        app.add_error_handler((falcon.HTTPMethodNotAllowed, falcon.HTTPNotFound), amend_and_reraise)
     return app
 """
 
@@ -895,7 +962,13 @@ def _build_apps(asgi, yp):
 _TOKEN_RX = __import__('re').compile(r'T\d+x\d+')
 
 
-def _gen_request(rnd, idx, side=None, kind=None):
+_DEFAULT_ROUTES = [('/items/<n>', ['DELETE', 'PATCH', 'POST']), ('/echo/<t>', ['GET', 'PUT', 'DELETE']), ('/health', ['PUT', 'DELETE', 'PATCH']),
+                   ('/u/<t>/k/k<n>', ['POST', 'PUT']), ('/typed/<n>', ['PUT', 'DELETE'])]
+_CT_SPELLINGS = ['application/json; charset=utf-8', 'Application/JSON', 'application/json; rev=<r>', 'APPLICATION/JSON; Charset=UTF-8', 'application/json;v=<r>',
+                 'application/json ; rev=<r>', 'application/json']
+
+
+def _gen_request(rnd, idx, side=None, kind=None, route=None):
     """One request with a token that appears nowhere else.  With `side` (a tag shared by a group of twins) the token travels in
     headers only: method, path, query string and body are a function of (kind, side, PRNG) and can be repeated byte for byte."""
     import json
@@ -930,8 +1003,21 @@ def _gen_request(rnd, idx, side=None, kind=None):
         path = f'/sink/{ptok}/x'
     elif kind == 'missing':
         path = f'/nothing/{ptok}'
-    elif kind == 'notallowed':
-        method, path = 'DELETE', f'/items/{pidx}'
+    elif kind in ('notallowed', 'options'):
+        # the framework's own responders: the 405 responder made for the route at add_route(), the default OPTIONS responder
+        tmpl, methods = _DEFAULT_ROUTES[rnd.randrange(len(_DEFAULT_ROUTES)) if route is None else route]
+        method = 'OPTIONS' if kind == 'options' else rnd.choice(methods)
+        path = tmpl.replace('<n>', str(pidx)).replace('<t>', ptok)
+    elif kind in ('typed_get', 'typed_post'):
+        # a media type spelled so that it is not a literal key of the handler mapping; `rev` makes the spelling new to this process as well
+        ct = rnd.choice(_CT_SPELLINGS).replace('<r>', str(rnd.randrange(10**6)))
+        path, qs = f'/typed/{rnd.randrange(1000)}', 'ct=' + __import__('urllib.parse').parse.quote(ct, safe='')
+        if kind == 'typed_post':
+            method = 'POST'
+            body = json.dumps({'ref': ptok, 'n': [pidx, 2]}).encode()
+            hdrs['Content-Type'] = rnd.choice(_CT_SPELLINGS).replace('<r>', str(rnd.randrange(10**6)))
+            if rnd.random() < 0.5:
+                qs = ''
     elif kind == 'conv':
         if rnd.random() < 0.6:
             path = '/events/2024-0%d-1%dT0%d:00:00Z' % (rnd.randint(1, 9), rnd.randint(0, 9), rnd.randint(0, 9))
@@ -951,18 +1037,26 @@ def _gen_request(rnd, idx, side=None, kind=None):
     return {'kind': kind, 'tok': tok, 'method': method, 'path': path, 'qs': qs, 'headers': hdrs, 'body': body}
 
 
-_KINDS = ['item_get', 'item_get', 'item_put', 'item_put', 'echo', 'err', 'ctx', 'chunks', 'sink', 'missing', 'notallowed', 'badint', 'lit_get', 'lit_get', 'lit_post', 'conv']
+_KINDS = ['item_get', 'item_get', 'item_put', 'item_put', 'echo', 'err', 'ctx', 'chunks', 'sink', 'missing', 'notallowed', 'badint', 'lit_get', 'lit_get', 'lit_post', 'conv',
+          'options', 'typed_get', 'typed_post']
+_DEFAULT_PATH_KINDS = ['notallowed', 'notallowed', 'notallowed', 'options', 'missing', 'badint']
 
 
 def _gen_requests(rnd, n, ctx=None):
-    """n concurrent requests: independent ones (60%), all of one kind (20%), or TWINS (20%): identical method, path, query string and
-    body bytes - they differ only in the side channel (the X-Tok header and headers derived from it)"""
+    """n concurrent requests: independent ones (50%), all of one kind (17%), all to the SAME ROUTE and answered by one of the framework's
+    default responders - 405, OPTIONS, 404 (15%), or TWINS (18%): identical method, path, query string and body bytes - they differ only in the
+    side channel (the X-Tok header and headers derived from it)"""
     u = rnd.random()
-    if u < 0.6:
+    if u < 0.5:
         mode, specs = 'mixed', [_gen_request(rnd, i) for i in range(n)]
-    elif u < 0.8:
+    elif u < 0.67:
         k0 = rnd.choice(_KINDS)
         mode, specs = 'same_kind', [_gen_request(rnd, i, kind=k0) for i in range(n)]
+    elif u < 0.82:
+        k0, r0 = rnd.choice(_DEFAULT_PATH_KINDS), rnd.randrange(len(_DEFAULT_ROUTES))
+        mode, specs = 'same_route_default_responder', [_gen_request(rnd, i, kind=k0, route=r0) for i in range(n)]
+        if ctx is not None:
+            ctx.count('same_route_default_responder_' + k0)
     else:
         mode = 'twins'
         first = _gen_request(rnd, 0, side=f'S{rnd.randrange(10**6)}', kind=rnd.choice(_KINDS + ['item_put', 'lit_get', 'lit_post']))
@@ -977,6 +1071,11 @@ def _gen_requests(rnd, n, ctx=None):
             ctx.count('twins_kind_' + specs[0]['kind'])
             ctx.count('twins_with_identical_nonempty_body', int(bool(specs[0]['body'])))
     return specs
+
+
+_AMEND_NAMES = ['none', 'every HTTPError: amended (description, title, code, headers dict) across two suspension points, raised again',
+                'every HTTPError: amended across suspension points, rendered by the handler (status, headers, to_dict())',
+                'HTTPMethodNotAllowed / HTTPNotFound only: amended across suspension points, raised again']
 
 
 def _asgi_tasks(ctx):
@@ -1088,15 +1187,16 @@ def _asgi_tasks(ctx):
             n = rnd.choice([2, 2, 3])
             n_mw, indep = rnd.choice([0, 1, 2]), rnd.random() < 0.5
             inj = rnd.random() < 0.5
+            amend = rnd.choice([0, 0, 1, 2, 3, 3])
             specs = _gen_requests(rnd, n, ctx)
             chunkings = [[rnd.randint(0, 7) for _ in range(rnd.choice([0, 0, 1, 2]))] for _ in range(n)]
             policy = rnd.choice(['uniform', 'uniform', 'sticky', 'rr'])
             seed = rnd.randrange(2**32)
             prnd = __import__('random').Random(seed)
-            if (n_mw, indep, inj) not in serial_apps:
-                serial_apps[(n_mw, indep, inj)] = ns['make_app'](falcon.asgi.App, n_mw, indep, inj)
-            want = await serial(serial_apps[(n_mw, indep, inj)], specs, chunkings)     # one at a time, on an app of its own
-            app = ns['make_app'](falcon.asgi.App, n_mw, indep, inj)       # fresh: these are its first-ever requests
+            if (n_mw, indep, inj, amend) not in serial_apps:
+                serial_apps[(n_mw, indep, inj, amend)] = ns['make_app'](falcon.asgi.App, n_mw, indep, inj, amend)
+            want = await serial(serial_apps[(n_mw, indep, inj, amend)], specs, chunkings)     # one at a time, on an app of its own
+            app = ns['make_app'](falcon.asgi.App, n_mw, indep, inj, amend)       # fresh: these are its first-ever requests
             got, order, why = await concurrent(app, specs, chunkings, policy, prnd)
             if why is None:
                 for i in range(n):
@@ -1115,16 +1215,200 @@ def _asgi_tasks(ctx):
                 if again != want:
                     why = 'after the concurrent round the same app answers the same requests differently when run one at a time'
             switches = sum(1 for a, b in zip(order, order[1:]) if a != b)
-            ctx.oracle(O_B, why is None, why, {'interface': 'asgi', 'middleware': n_mw, 'independent_middleware': indep, 'injecting_resource_middleware': inj, 'requests': specs,
+            ctx.oracle(O_B, why is None, why, {'interface': 'asgi', 'middleware': n_mw, 'independent_middleware': indep, 'injecting_resource_middleware': inj,
+                                               'error_handler_amending_the_error': _AMEND_NAMES[amend], 'requests': specs,
                                                'body_chunking': chunkings, 'policy': policy, 'schedule_seed': seed, 'order': order})
-            ctx.seen(('b', n_mw, indep, inj, str(specs), seed), switches > 0)
+            ctx.seen(('b', n_mw, indep, inj, amend, str(specs), seed), switches > 0)
             ctx.count(f'asgi_{n}req')
             ctx.count('asgi_apps_with_injecting_resource_middleware', int(inj))
+            ctx.count('asgi_apps_with_error_handler_amending_the_error', int(amend > 0))
+            if amend and len({(sp['path'].split('/')[1]) for sp in specs}) == 1 and all(sp['kind'] in _DEFAULT_PATH_KINDS for sp in specs):
+                ctx.count('asgi_same_route_default_responder_with_amending_handler')
             ctx.count('asgi_turns', len(order))
             for sp in specs:
                 ctx.count('asgi_kind_' + sp['kind'])
             if ci < 2:
                 ctx.sample({'asgi_requests': [f"{sp['method']} {sp['path']}?{sp['qs']}" for sp in specs], 'order': order[:40]})
+    asyncio.run(main())
+
+
+# ------------------------------------------------------------------ (b') a NOT thread-safe synchronous component behind wrap_sync_to_async(threadsafe=False)
+
+WRAP_MODES = ['one wrapper per entry point, made when the app is built', 'wrapped anew inside the responder / middleware method for every request',
+              'one wrapper for the whole component (dispatching on the entry point\'s name)', 'mixed: transfer wrapped once, the others per request']
+O_S = ('ASGI, synchronous component that is not thread-safe, every entry point wrapped with falcon.util.wrap_sync_to_async(..., threadsafe=False) and each request '
+       'making exactly one call into it: 2-3 concurrent requests get the responses of SOME one-at-a-time order')
+
+
+def _asgi_wrapped_sync(ctx):
+    """The guarantee an ASGI application builds on when it calls blocking, not thread-safe code: everything wrapped with threadsafe=False runs serially -
+    whichever wrapper object the call goes through (several entry points of one component wrapped separately, a function wrapped anew per request,
+    responders and middleware of one app).  The component below keeps a few accounts and a journal; every method reads, blocks (releasing the GIL, as I/O
+    does) and writes, so two calls inside it at once produce balances / totals / sequence numbers that no serial order of the requests produces."""
+    import asyncio
+    import itertools
+    import json
+    import threading
+    import time
+    import falcon
+    import falcon.asgi
+    import falcon.testing as ft
+    rnd = ctx.rng
+    wrap = falcon.util.wrap_sync_to_async
+
+    class Ledger:
+        def __init__(s, pause):
+            s.bal, s.journal, s.seq, s.pause = {'a': 100, 'b': 100, 'c': 100}, [], 0, pause
+            s.inside = s.max_inside = 0
+            s.threads = set()
+
+        def _io(s, k=1.0):
+            if s.pause:
+                time.sleep(s.pause * k)
+
+        def _enter(s):
+            s.inside += 1
+            s.max_inside = max(s.max_inside, s.inside)
+            s.threads.add(threading.get_ident())
+
+        def transfer(s, src, dst, amt):
+            s._enter()
+            try:
+                have = s.bal[src]
+                s._io(0.5)
+                s.bal[src] = have - amt             # debit
+                s._io()                             # journal I/O between debit and credit
+                s.journal.append([src, dst, amt])
+                s.bal[dst] = s.bal[dst] + amt       # credit
+                return {'moved': amt, 'balances': dict(s.bal), 'entries': len(s.journal)}
+            finally:
+                s.inside -= 1
+
+        def total(s):
+            s._enter()
+            try:
+                t = 0
+                for k in sorted(s.bal):
+                    t += s.bal[k]
+                    s._io(0.3)
+                return {'total': t, 'entries': len(s.journal)}
+            finally:
+                s.inside -= 1
+
+        def stamp(s, who):
+            s._enter()
+            try:
+                n = s.seq
+                s._io(0.7)
+                s.seq = n + 1
+                s.journal.append(['stamp', who, n])
+                return {'stamp': n, 'who': who, 'entries': len(s.journal)}
+            finally:
+                s.inside -= 1
+
+    def make(mode, pause):
+        led = Ledger(pause)
+        once = {name: wrap(getattr(led, name), threadsafe=False) for name in ('transfer', 'total', 'stamp')}
+        one = wrap(lambda name, *a: getattr(led, name)(*a), threadsafe=False)
+
+        def entry(name):
+            """the awaitable through which this request reaches the component"""
+            if mode == 0 or (mode == 3 and name == 'transfer'):
+                return once[name]
+            if mode == 2:
+                return lambda *a: one(name, *a)
+            return wrap(getattr(led, name), threadsafe=False)
+
+        class Transfers:
+            async def on_post(self, req, resp, src, dst):
+                resp.media = dict(await entry('transfer')(src, dst, req.get_param_as_int('amount', default=10)), tok=req.get_header('X-Tok'))
+
+        class Audit:
+            async def on_get(self, req, resp):
+                resp.media = dict(await entry('total')(), tok=req.get_header('X-Tok'))
+
+        class Ping:
+            async def on_get(self, req, resp):
+                resp.media = {'ping': getattr(req.context, 'stamped', None), 'tok': req.get_header('X-Tok')}
+
+        class Stamping:
+            # middleware of the same app uses the same component (through a wrapper of its own)
+            async def process_request(self, req, resp):
+                if req.get_header('X-Audit'):
+                    req.context.stamped = await entry('stamp')(req.get_header('X-Tok'))
+
+        app = falcon.asgi.App(middleware=[Stamping()])
+        app.add_route('/transfers/{src}/{dst}', Transfers())
+        app.add_route('/audit', Audit())
+        app.add_route('/ping', Ping())
+        return app, led
+
+    def gen(i):
+        tok = f'T{i}x{rnd.randrange(10**6)}'
+        k = rnd.choice(['transfer', 'transfer', 'audit', 'audit', 'stamp'])
+        if k == 'transfer':
+            src, dst = rnd.sample('abc', 2)
+            return {'kind': k, 'tok': tok, 'method': 'POST', 'path': f'/transfers/{src}/{dst}', 'qs': f'amount={rnd.choice([5, 10, 30, 70])}', 'headers': {'X-Tok': tok}}
+        if k == 'audit':
+            return {'kind': k, 'tok': tok, 'method': 'GET', 'path': '/audit', 'qs': '', 'headers': {'X-Tok': tok}}
+        return {'kind': k, 'tok': tok, 'method': 'GET', 'path': '/ping', 'qs': '', 'headers': {'X-Tok': tok, 'X-Audit': '1'}}
+
+    async def call(app, spec, delay=0.0):
+        if delay:
+            await asyncio.sleep(delay)
+        scope = ft.create_scope(method=spec['method'], path=spec['path'], query_string=spec['qs'], headers=spec['headers'])
+        evs = [{'type': 'http.request', 'body': b'', 'more_body': False}]
+        sent = []
+
+        async def receive():
+            return evs.pop(0) if evs else {'type': 'http.disconnect'}
+
+        async def send(ev):
+            sent.append(ev)
+        await app(scope, receive, send)
+        status = next((e['status'] for e in sent if e['type'] == 'http.response.start'), None)
+        body = b''.join(e.get('body', b'') for e in sent if e['type'] == 'http.response.body')
+        try:
+            return (status, json.dumps(json.loads(body), sort_keys=True))
+        except ValueError:
+            return (status, body.decode('latin-1'))
+
+    async def outcome(coro):
+        try:
+            return ('ok', await asyncio.wait_for(coro, 60))
+        except BaseException as e:  # noqa
+            return ('exc', type(e).__name__, str(e)[:120])
+
+    async def main():
+        for ci in range(ctx.n(260, 4000)):
+            n = rnd.choice([2, 2, 3])
+            mode = rnd.randrange(len(WRAP_MODES))
+            specs = [gen(i) for i in range(n)]
+            # one at a time, in every order (the component is state shared by design: which order is up to the scheduler, that it IS an order is the property)
+            serial_outcomes = {}
+            for perm in itertools.permutations(range(n)):
+                app, _ = make(mode, 0)
+                res = [None] * n
+                for i in perm:
+                    res[i] = await outcome(call(app, specs[i]))
+                serial_outcomes.setdefault(tuple(res), perm)
+            pause = rnd.choice([0.002, 0.003, 0.004])
+            delays = [0.0] + [rnd.choice([0.0, pause * 0.4, pause * 0.9]) for _ in range(n - 1)]
+            app, led = make(mode, pause)
+            got = tuple(await asyncio.gather(*[outcome(call(app, specs[i], delays[i])) for i in range(n)]))
+            why = None
+            if got not in serial_outcomes:
+                why = (f'the concurrent responses {got!r} are not the responses of any one-at-a-time order; the orders give {sorted(serial_outcomes)!r}'
+                       f' (calls inside the component at once: {led.max_inside}, worker threads that entered it: {len(led.threads)})')
+            ctx.oracle(O_S, why is None, why, {'interface': 'asgi', 'wrapping': WRAP_MODES[mode], 'requests': specs, 'start_delays_s': delays,
+                                               'blocking_time_inside_the_component_s': pause, 'calls_inside_the_component_at_once': led.max_inside,
+                                               'component': 'Ledger(a=b=c=100): transfer(src,dst,amount) = read, block, debit, block, journal, credit; total() = sum with blocking reads; stamp(who) = read seq, block, write seq+1'})
+            ctx.seen(('s', mode, str(specs), tuple(delays), pause), len({sp['kind'] for sp in specs}) > 1 or mode in (1, 3))
+            ctx.count('asgi_wrapped_sync_cases')
+            ctx.count('asgi_wrapped_sync_mode_%d' % mode)
+            ctx.count('asgi_wrapped_sync_distinct_serial_outcomes', len(serial_outcomes))
+            ctx.count('asgi_wrapped_sync_calls_overlapped_inside_the_component', int(led.max_inside > 1))
+            ctx.count('asgi_wrapped_sync_more_than_one_worker_thread', int(len(led.threads) > 1))
     asyncio.run(main())
 
 
@@ -1201,25 +1485,26 @@ def _wsgi_threads(ctx):
 
     serial_apps = {}
 
-    def serial_app(n_mw, indep, inj):
-        if (n_mw, indep, inj) not in serial_apps:
-            serial_apps[(n_mw, indep, inj)] = ns['make_app'](falcon.App, n_mw, indep, inj)
-        return serial_apps[(n_mw, indep, inj)]
+    def serial_app(n_mw, indep, inj, amend=0):
+        if (n_mw, indep, inj, amend) not in serial_apps:
+            serial_apps[(n_mw, indep, inj, amend)] = ns['make_app'](falcon.App, n_mw, indep, inj, amend)
+        return serial_apps[(n_mw, indep, inj, amend)]
 
     events_seen = []
     for ci in range(ctx.n(500, 10000)):
         n = rnd.choice([2, 2, 3])
         n_mw, indep = rnd.choice([0, 1, 2]), rnd.random() < 0.5
         inj = rnd.random() < 0.5
+        amend = rnd.choice([0, 0, 1, 2, 3, 3])
         specs = _gen_requests(rnd, n, ctx)
-        want = serial(serial_app(n_mw, indep, inj), specs)
+        want = serial(serial_app(n_mw, indep, inj, amend), specs)
         E = events_seen[-1] if events_seen else 900
         k = rnd.choice([1, 2, 3, 4, 6, 10])
         sw = {p: rnd.choice([1, 2]) for p in rnd.sample(range(1, max(E, 50)), k)}
         s = lib_sched.Sched(n, sw)
         # whatever locks the app, its router and the modules behind them create or hold become scheduler-aware (no attribute name assumed)
         locks.activate(s, lambda: tls.i)
-        app = ns['make_app'](falcon.App, n_mw, indep, inj)
+        app = ns['make_app'](falcon.App, n_mw, indep, inj, amend)
         locks.adopt(app, depth=3)
         cur['sched'] = s
 
@@ -1237,10 +1522,99 @@ def _wsgi_threads(ctx):
         ctx.count('wsgi_sched_locks_made_scheduler_aware', len(locks.created))
         why = 'deadlock / a thread did not finish' if (s.dead or any(g[0] == 'deadlock' for g in got)) else verdict(specs, got, want)
         ctx.oracle(O_W, why is None, why, {'interface': 'wsgi', 'mode': 'deterministic scheduler', 'middleware': n_mw, 'independent_middleware': indep,
-                                           'injecting_resource_middleware': inj, 'requests': specs, 'switch_points': sorted(sw.items()), 'events': s.ev})
-        ctx.seen(('w', n_mw, indep, inj, str(specs), tuple(sorted(sw.items()))), s.preemptions > 0)
+                                           'injecting_resource_middleware': inj, 'error_handler_amending_the_error': _AMEND_NAMES[amend],
+                                           'requests': specs, 'switch_points': sorted(sw.items()), 'events': s.ev})
+        ctx.seen(('w', n_mw, indep, inj, amend, str(specs), tuple(sorted(sw.items()))), s.preemptions > 0)
         ctx.count(f'wsgi_sched_{n}thr')
         ctx.count('wsgi_sched_preemptions', s.preemptions)
+
+    # ---- FIRST-TIME EVENTS x every preemption point, systematically: two requests to a fresh app - one (mostly) answered by an error response or a
+    #      framework-default responder, one (mostly) spelling a media type the app has not resolved before (parameters, letter case: the best-match
+    #      fallback of the handlers' resolver) - under EVERY single-preemption schedule: thread 0 is preempted before its p-th line event inside falcon/
+    #      (whatever function that is in: router, request/response objects, media layer, error serializer ...), thread 1 runs to completion in that
+    #      window, thread 0 continues.  What a first request does once per app (compile the router, fill a cache, ...) thus happens inside every
+    #      window of the other request, and vice versa.
+    A_KINDS = ['missing', 'missing', 'notallowed', 'notallowed', 'badint', 'err', 'err', 'options', 'item_get']
+    B_KINDS = ['typed_get', 'typed_get', 'typed_get', 'typed_post', 'typed_post', 'item_put', 'lit_post', 'ctx']
+    ev_of = [0, 0]
+    in_router = {}          # recording run: event number -> the line belongs to the router's compile / generated finder (explored by part (a))
+    ROUTER_FILE = __import__('falcon.routing.compiled', fromlist=['x']).__file__
+
+    def tracer2_for(s, i):
+        def local(frame, event, arg):
+            if event == 'line':
+                s.point(i)
+                ev_of[i] = s.ev
+                if i == 0 and not s.sw:
+                    in_router[s.ev] = frame.f_code.co_filename in (ROUTER_FILE, '<string>')
+            return local
+
+        def tr(frame, event, arg):
+            fn = frame.f_code.co_filename
+            if fn.startswith(FALCON_DIR) or fn == '<string>':
+                return local
+            return None
+        return tr
+
+    def run_pair(specs, cfg, sw):
+        s = lib_sched.Sched(2, sw)
+        locks.activate(s, lambda: tls.i)
+        app = ns['make_app'](falcon.App, *cfg)
+        locks.adopt(app, depth=3)
+        cur['sched'] = s
+
+        def body(i):
+            def b():
+                tls.i = i
+                return call(app, specs[i])
+            return b
+        try:
+            got = lib_sched.run_threads(s, [body(i) for i in range(2)], lambda i: tracer2_for(s, i))
+        finally:
+            locks.deactivate()
+        cur['sched'] = None
+        return s, got
+
+    pair_budget = ctx.n(3200, 60000)
+    stride = 3 if ctx.quick else 1          # quick: every third point (PRNG offset) - a window of three or more consecutive line events is still entered
+    pair_runs = 0
+    pi = 0
+    while pair_runs < pair_budget:
+        pi += 1
+        a = _gen_request(rnd, 0, kind=rnd.choice(A_KINDS) if rnd.random() < 0.85 else None)
+        b = _gen_request(rnd, 1, kind=rnd.choice(B_KINDS) if rnd.random() < 0.85 else None)
+        specs = [a, b] if rnd.random() < 0.7 else [b, a]
+        cfg = (rnd.choice([0, 0, 1]), rnd.random() < 0.5, rnd.random() < 0.25, rnd.choice([0, 0, 0, 1, 3]))
+        want = serial(serial_app(*cfg), specs)
+        ev_of[0] = ev_of[1] = 0
+        in_router.clear()
+        s0, got0 = run_pair(specs, cfg, {})
+        E0 = ev_of[0]
+        ctx.count('wsgi_pair_explorations')
+        ctx.count('wsgi_pair_kinds_%s+%s' % (specs[0]['kind'], specs[1]['kind']))
+        ctx.count('wsgi_pair_line_events_of_thread_0', E0)
+        # every point outside the router's lazy compile (the ~2000 lines of which are the subject of part (a)), every 40th inside it
+        rt = [e for e in range(1, E0 + 1) if in_router.get(e)]
+        pts = sorted([e for e in range(1, E0 + 1) if not in_router.get(e)][rnd.randrange(stride)::stride] + rt[::40])
+        ctx.count('wsgi_pair_line_events_of_thread_0_outside_the_router', E0 - len(rt))
+        if len(pts) > pair_budget - pair_runs:
+            pts = sorted(rnd.sample(pts, max(1, pair_budget - pair_runs)))
+        for p_ in [None] + pts:
+            sw = {} if p_ is None else {p_: 1}
+            s, got = (s0, got0) if p_ is None else run_pair(specs, cfg, sw)
+            pair_runs += 1
+            why = 'deadlock / a thread did not finish' if (s.dead or any(g[0] == 'deadlock' for g in got)) else verdict(specs, got, want)
+            ctx.oracle(O_W, why is None, why, {'interface': 'wsgi', 'mode': 'deterministic scheduler, every single preemption of thread 0 (request 0), request 1 processed completely in the window',
+                                               'middleware': cfg[0], 'independent_middleware': cfg[1], 'injecting_resource_middleware': cfg[2],
+                                               'error_handler_amending_the_error': _AMEND_NAMES[cfg[3]], 'requests': specs,
+                                               'switch_points': sorted(sw.items()), 'line_events_of_request_0': E0})
+            ctx.seen(('wp', cfg, str(specs), p_), s.preemptions > 0)
+            ctx.count('wsgi_pair_single_preemption_schedules')
+            if why is not None:
+                ctx.count('wsgi_pair_failures')
+                if ctx.dist.get('wsgi_pair_failures', 0) >= 30:
+                    pair_runs = pair_budget
+                    break
 
     # ---- free-running threads on the real lock
     old = sys.getswitchinterval()
@@ -1250,9 +1624,10 @@ def _wsgi_threads(ctx):
             n = rnd.choice([2, 3, 3])
             n_mw, indep = rnd.choice([0, 1, 2]), rnd.random() < 0.5
             inj = rnd.random() < 0.5
+            amend = rnd.choice([0, 0, 1, 2, 3, 3])
             specs = _gen_requests(rnd, n, ctx)
-            want = serial(serial_app(n_mw, indep, inj), specs)
-            app = ns['make_app'](falcon.App, n_mw, indep, inj)
+            want = serial(serial_app(n_mw, indep, inj, amend), specs)
+            app = ns['make_app'](falcon.App, n_mw, indep, inj, amend)
             got = [None] * n
             bar = threading.Barrier(n)
 
@@ -1269,8 +1644,8 @@ def _wsgi_threads(ctx):
                 t.join(180)
             why = 'a thread did not finish' if any(t.is_alive() for t in ts) else verdict(specs, got, want)
             ctx.oracle(O_W, why is None, why, {'interface': 'wsgi', 'mode': 'free-running threads', 'middleware': n_mw, 'independent_middleware': indep,
-                                               'injecting_resource_middleware': inj, 'requests': specs})
-            ctx.seen(('wf', n_mw, indep, inj, str(specs)), True)
+                                               'injecting_resource_middleware': inj, 'error_handler_amending_the_error': _AMEND_NAMES[amend], 'requests': specs})
+            ctx.seen(('wf', n_mw, indep, inj, amend, str(specs)), True)
             ctx.count(f'wsgi_free_{n}thr')
     finally:
         sys.setswitchinterval(old)
@@ -1377,6 +1752,29 @@ INVENTORY = [
     # ---- false positives: objects that are not shared between requests
     ('falcon/inspect.py', 'StringVisitor.indent', 'inst-attr:aug,rebind', K_REQ, 'one visitor per inspect call; not on the request path', {}),
     ('falcon/util/structures.py', 'CaseInsensitiveDict._store', 'inst-attr:del[],store[]', K_REQ, 'generic mapping type; an instance belongs to whoever created it (falcon itself only uses it in falcon.testing)', {}),
+    # ---- closure cells: objects created once by a factory function and kept alive by the function it returns (a responder made per route at
+    #      add_route(), a wrapper made per decorated responder ...).  Not one of them is a fresh container/instance that the inner function
+    #      raises or returns (that shape - a pre-built exception handed to every request - is admitted by no proved kind)
+    ('falcon/app.py', 'App.add_error_handler.<cell>.handler', 'closure-cell:bound:call:getattr+call:wrap_old_handler|return', K_RO,
+     'a function object (the handler, possibly re-wrapped by the compatibility shim); functions are not written to', {}),
+    ('falcon/hooks.py', '_wrap_with_after.<cell>.async_action', 'closure-cell:bound:call:_wrap_non_coroutine_unsafe|call', K_RO, 'the hook function, captured once per decorated responder and only called', {}),
+    ('falcon/hooks.py', '_wrap_with_after.<cell>.async_responder', 'closure-cell:bound:alias-of:responder|arg+call', K_RO, 'the decorated responder function (also handed to functools.wraps)', {}),
+    ('falcon/hooks.py', '_wrap_with_after.<cell>.extra_argnames', 'closure-cell:bound:expr|arg', K_RO, 'slice of the responder\'s argument names; _merge_responder_args only reads it', {}),
+    ('falcon/hooks.py', '_wrap_with_after.<cell>.sync_action', 'closure-cell:bound:alias-of:action|call', K_RO, 'the hook function', {}),
+    ('falcon/hooks.py', '_wrap_with_after.<cell>.sync_responder', 'closure-cell:bound:alias-of:responder|arg+call', K_RO, 'the decorated responder function', {}),
+    ('falcon/hooks.py', '_wrap_with_before.<cell>.async_action', 'closure-cell:bound:call:_wrap_non_coroutine_unsafe|call', K_RO, 'the hook function', {}),
+    ('falcon/hooks.py', '_wrap_with_before.<cell>.async_responder', 'closure-cell:bound:alias-of:responder|arg+call', K_RO, 'the decorated responder function', {}),
+    ('falcon/hooks.py', '_wrap_with_before.<cell>.extra_argnames', 'closure-cell:bound:expr|arg', K_RO, 'slice of the responder\'s argument names; only read', {}),
+    ('falcon/hooks.py', '_wrap_with_before.<cell>.sync_action', 'closure-cell:bound:alias-of:action|call', K_RO, 'the hook function', {}),
+    ('falcon/hooks.py', '_wrap_with_before.<cell>.sync_responder', 'closure-cell:bound:alias-of:responder|arg+call', K_RO, 'the decorated responder function', {}),
+    ('falcon/inspect.py', 'inspect_compiled_router.<cell>.routes', 'closure-cell:bound:container|mutate', K_REQ, 'result list of one inspect call, filled by the local helper _traverse; not on the request path', {}),
+    ('falcon/routing/compiled.py', 'CompiledRouter.add_route.<cell>.method_map', 'closure-cell:bound:call:map_http_methods|read', K_CONF, 'used by the local helper insert() while add_route() runs; the helper does not outlive the call', {}),
+    ('falcon/routing/compiled.py', 'CompiledRouter.add_route.<cell>.path', 'closure-cell:bound:call:split|arg+attr', K_CONF, 'the template segments, read by the local helper insert() while add_route() runs', {}),
+    ('falcon/util/sync.py', 'wrap_sync_to_async.<cell>.executor', 'closure-cell:bound:alias-of:_one_thread_to_rule_them_all|arg', K_OTHER,
+     'threadsafe=False: every wrapper refers to the ONE module-level single-thread executor (an executor created per wrapper would be shape bound:instance), '
+     'so calls through different wrappers of one non-thread-safe component never overlap - validated by the wrapped-component runs', {}),
+    ('falcon/util/uri.py', '_create_str_encoder.<cell>.allowed_chars', 'closure-cell:bound:alias-of:_ALL_ALLOWED+alias-of:_UNRESERVED|arg', K_RO, 'a str constant', {}),
+    ('falcon/util/uri.py', '_create_str_encoder.<cell>.encode_char', 'closure-cell:bound:call:_create_char_encoder|arg', K_RO, 'bound method __getitem__ of a lookup table built once at import and never written', {}),
     # ---- other
     ('falcon/util/sync.py', '_ActiveRunner._runner', 'inst-attr:rebind', K_OTHER, 'async_to_sync() helper: the asyncio Runner is re-created when its loop was closed; used by falcon.testing and by applications, not by request processing', {}),
     ('falcon/util/sync.py', '_active_runner', 'module-state:bound:instance:_ActiveRunner', K_OTHER, 'the holder of that Runner', {}),
@@ -1867,7 +2265,7 @@ LEVEL_TEXT = ('Machine-checked proofs (Lean 4): (a) the lazy-compile protocol of
               'cache_clear() (Sm.memo_transparent, via the invariant Sm.step_inv), a lazily initialised cell written by racing threads (Lz.lazy_init_idempotent), and their composition with the locked router compile and '
               'per-request programs through safe protocols and products of protocols (Cp.noninterference, Cp.memo_safe/lazy_safe/router_safe/prod_safe, Cp.falcon_shared_noninterference). '
               'Tie for (c): an AST inventory of every piece of state in falcon/ that outlives a request (memo decorators and memo applications written as call expressions, partial objects binding containers, module-level containers/instances, mutable default arguments, class attributes, instance attributes of '
-              'long-lived objects written outside __init__ directly or through a local alias, lazy initialisations with the kind of value they create) is compared on every run with a hand-classified table (46 items: 8+3 memos, 7 lock-protected, 13 configuration, 10 read-only, 2 false positives, 3 other); every memoised '
+              'long-lived objects written outside __init__ directly or through a local alias, lazy initialisations with the kind of value they create) is compared on every run with a hand-classified table (63 items: 8+3 memos, 7 lock-protected, 15 configuration, 23 read-only, 3 false positives / per-call, 4 other; 17 of them closure cells of factory functions); every memoised '
               'function found is probed for shared mutable results; the real lru_cache-wrapped functions and the header-name cache are replayed through the Sm model (single-thread sequences and scheduled thread races). '
               '(d) where the lock comes from (Ll): a lock created together with the object gives mutual exclusion for any number of threads under every schedule and is the only lock object ever (eager_lock_mutual_exclusion, via run_inv); '
               'a lock created on first use lets two threads into the critical section with different locks (lazy_lock_witness). '
